@@ -68,7 +68,9 @@ class After(Condition):
         return True  # noqa: B901
 
     def __subscribe__(self, waiter: Coroutine, interrupt: CoreInterrupt):
-        self._ensure_trigger()
+        # once the date is reached, subscribers are notified immediately
+        if not self:
+            self._ensure_trigger()
         super().__subscribe__(waiter, interrupt)
 
     def __repr__(self):
@@ -168,10 +170,18 @@ class Moment(Condition):
         return True  # noqa: B901
 
     def __subscribe__(self, waiter: Coroutine, interrupt: CoreInterrupt):
-        self._transition.__subscribe__(waiter, interrupt)
+        if self or not self._transition:
+            # before the date we are notified on the transition, at the date now
+            self._transition.__subscribe__(waiter, interrupt)
+        else:
+            # after the date has passed we are never notified
+            Notification.__subscribe__(self, waiter, interrupt)
 
     def __unsubscribe__(self, waiter: Coroutine, interrupt: CoreInterrupt):
-        self._transition.__unsubscribe__(waiter, interrupt)
+        if (waiter, interrupt) in self._waiting:
+            Notification.__unsubscribe__(self, waiter, interrupt)
+        else:
+            self._transition.__unsubscribe__(waiter, interrupt)
 
     def __repr__(self):
         return f'{self.__class__.__name__}(date={self.date})'
